@@ -95,8 +95,13 @@ def run_history(w: World, rng: random.Random, steps: int, *, p_instr: float = 0.
     recs: List[Dict[str, Any]] = [dict(w.mechs_cfg(), id=f"{tag}:cfg")]
     oracle = Oracle()
     cancel = CancelRequests()
+    import json as _json
+
+    retained: List[Any] = []   # (record id, the state object as obtained, its encoding at that moment)
     with recording(oracle):
         for k in range(steps):
+            if k % 5 == 0:
+                retained.append((f"{tag}:{k}:pre", sim, _json.dumps(enc_sim(n, sim), sort_keys=True)))
             # --- request arrivals / cancellations (real state ops) ---
             pre = sim
             env.reporter.reports = []
@@ -191,4 +196,8 @@ def run_history(w: World, rng: random.Random, steps: int, *, p_instr: float = 0.
             )
             env.reporter.reports = []
             sim = simulation_state_ops.tick(sim)
+    # C16 (supporting evidence): a state obtained earlier reads exactly the same after all later phases
+    changed = [rid for rid, obj, enc in retained if _json.dumps(enc_sim(n, obj), sort_keys=True) != enc]
+    recs[0]["retained_changed"] = changed
+    recs[0]["retained_checked"] = len(retained)
     return recs
